@@ -10,6 +10,7 @@ from __future__ import annotations
 
 import asyncio
 import itertools
+import signal
 
 from common import Ctx, Failure, corpus_cases, shrink_list
 
@@ -49,6 +50,18 @@ class _Clock:
         return float(self.now)
 
 
+class Hang(BaseException):
+    """a registry call did not return within the watchdog time (the cycle check's
+    `while to_check` loop spins forever on a cyclic graph)"""
+
+
+def _on_alarm(signum, frame):
+    raise Hang()
+
+
+WATCHDOG_S = 1.0
+
+
 class RA: ...
 
 
@@ -68,6 +81,7 @@ class Runner:
         self.res = [registry.Resource(resource_type=(RA if i % 2 == 0 else RB), name=f"r{i // 2}",
                                       namespace=("ns" if i == 3 else None)) for i in range(8)]
         self.idx = {r: i for i, r in enumerate(self.res)}
+        self.hung = False
         self.heap = []          # every queue object ever seen, in creation order
         self.qid = {}
 
@@ -112,6 +126,18 @@ class Runner:
         return "Other:" + type(e).__name__
 
     def apply(self, op):
+        old = signal.signal(signal.SIGALRM, _on_alarm)
+        signal.setitimer(signal.ITIMER_REAL, WATCHDOG_S)
+        try:
+            return self._apply(op)
+        except Hang:
+            self.hung = True
+            return ["raised", "Other:Hang"], self.observe()
+        finally:
+            signal.setitimer(signal.ITIMER_REAL, 0)
+            signal.signal(signal.SIGALRM, old)
+
+    def _apply(self, op):
         reg, R = self.reg, self.res
         k = op[0]
         try:
@@ -162,6 +188,8 @@ def run_ops(ops, probe=None):
                     continue            # (only after shrinking) no such queue object
                 res, obs = r.apply(op)
                 out.append((op, res, obs))
+                if r.hung or has_cycle([tuple(e) for e in obs["watches"]]):
+                    return out, None     # (the oracle flags this step; going on could spin forever)
             verdict = await probe(r) if probe else None
             return out, verdict
         finally:
@@ -193,6 +221,8 @@ def oracle_step(before, op, res, after):
     """(signature, description) if the property fails on this step, else None."""
     k = op[0]
     w0 = [tuple(e) for e in before["watches"]]
+    if res == ["raised", "Other:Hang"]:
+        return (f"{k} does not terminate", f"{k} did not return within {WATCHDOG_S}s (cycle check spinning on a cyclic graph)")
     # -- views are exact inverses, graph acyclic: after ANY operation
     if sorted([s, r] for r, s in after["subs"]) != after["watches"]:
         return ("views not inverse", f"after {k}: the two views are not exact inverses")
@@ -491,6 +521,8 @@ def random_trace(rng, length, nres):
                 op = gen.next(obs)
                 res, obs = r.apply(op)
                 out.append((op, res, obs))
+                if r.hung or has_cycle([tuple(e) for e in obs["watches"]]):
+                    break
             return out
         finally:
             r.close()
@@ -506,6 +538,11 @@ def nontrivial(trace):
 
 def report(ctx: Ctx, ops, bad, probe_spec=None):
     sig = bad[0]
+    seen = ctx.__dict__.setdefault("_c17_sigs", {})
+    seen[sig] = seen.get(sig, 0) + 1
+    if seen[sig] > 1:                  # shrink and report each kind of failure once; count the rest
+        ctx.failures.append(Failure(signature=sig, what=bad[1], case={"ops": ops}))
+        return
 
     def still(xs):
         tr, verdict = run_ops(xs, make_probe(*probe_spec) if probe_spec else None)
